@@ -138,6 +138,19 @@ func CorpusC13(seed int64, tier string) []*Case {
 	}
 	cases = append(cases, &Case{Origin: "c13:unsigned-probe", Src: newSrc("c13p", pkgs, pit), Cfg: Cfg{Dest: "implicit", Args: []string{"UnsignedProbe"}},
 		Judge: []string{"C13"}, Names: precs, KF: "KF-09"})
+	// parameters spelled like the SOURCE package, generated in place: nothing is imported
+	// under that name, the written name stays (whatever the order of the interfaces)
+	usr := newSrc("user", pkgs,
+		Iface{Name: "Store", OneFile: true, Methods: []Method{meth("Save", ps(par("ctx", Basic("int")), par("user", Ptr(Named(-1, "LocalT")))), ps(par("", errT))), meth("Touch", ps(par("user", Named(-1, "LocalT")), par("n", Basic("int"))), nil)}},
+		Iface{Name: "Plain", OneFile: true, Methods: []Method{meth("Rename", ps(par("user", Basic("string")), par("to", Basic("string"))), nil)}})
+	urecs := func() []NameRec {
+		return []NameRec{{Iface: "Store", Method: "Save", Index: 1, NameCs: cs("user"), T: Ptr(Named(-1, "LocalT")), Judge: true},
+			{Iface: "Store", Method: "Touch", Index: 0, NameCs: cs("user"), T: Named(-1, "LocalT"), Judge: true},
+			{Iface: "Plain", Method: "Rename", Index: 0, NameCs: cs("user"), T: Basic("string"), Judge: true}}
+	}
+	for _, args := range [][]string{{"Store", "Plain"}, {"Plain", "Store"}} {
+		cases = append(cases, &Case{Origin: "c13:named-like-source-package:" + strings.Join(args, ","), Src: usr, Cfg: Cfg{Dest: "implicit", Args: args}, Judge: []string{"C13"}, Names: urecs()})
+	}
 	recs2 := append([]NameRec(nil), recs...)
 	cases = append(cases, &Case{Origin: "c13:unnamed:other", Src: src, Cfg: Cfg{Dest: "other", Stub: true, Args: []string{"Unnamed"}}, Judge: []string{"C13"}, Names: recs2})
 	return cases
